@@ -53,6 +53,21 @@ def make_case(rng):
         if p.get("mode") in ("gen", "write+iter") and p.get("has_close") and not p.get("fail") and not p.get("fail_exc_info") \
                 and rng.random() < 0.08:
             p["close_raises"] = True
+    # a response header the server refuses (the application does not catch the refusal)
+    for p in case["progs"]:
+        if not p.get("fail") and not p.get("fail_exc_info") and rng.random() < 0.05:
+            p["headers"] = list(p.get("headers", [])) + [rng.choice([["X-Bad", "a\nb"], ["X Bad", "v"], ["X-Bad", "a\x00b"]])]
+            p["exc_info_retry"] = False
+    # a HEAD request answered by an application that produces a body all the same (last request, connection closed afterwards)
+    if case["reqs"][-1]["method"] == "HEAD" and rng.random() < 0.5 and not case["progs"][-1].get("fail"):
+        pl = case["progs"][-1]
+        pl.update({"mode": rng.choice(["list", "gen", "write"]), "chunks": [(b"h" * 512).hex(), (b"b" * 512).hex()], "cl": rng.choice([None, "exact"]),
+                   "lazy_start": False})
+        pl.pop("file", None)
+        pl.pop("cut_by", None)
+        pl["headers"] = [h for h in pl.get("headers", []) if h[0].lower() != "content-length"]
+        case["reqs"][-1]["conn"] = ["close"]
+        case["head_with_body"] = True
     # access logging configured through a logging dictionary (no handler on 'gunicorn.access' itself, records propagate)
     case["log_via_root"] = False        # (logging configuration is process-wide: set per shard, see shard())
     # a chunked upload the application does not read, with a trailer section the parser refuses when it skips the body afterwards
@@ -180,6 +195,15 @@ def run_case(run, e2, harnesses, case, scratch):
                 run.count("info_failed_app_requests")      # application failed: the statement does not cover it
                 if k > 1:
                     run.count("info_failed_app_logged_twice")
+                elif k == 1 and records is not None and case["format"] != "default" and i < len(res.responses) and not case.get("client_gone"):
+                    # ... but a record that IS written has to tell the truth: one record, one reply - the same status
+                    ln1 = [x for x in records if "ID=%s " % rid in x][0]
+                    m1 = re.match(r"^ID=%s S=(\S+) " % rid, ln1)
+                    if m1:
+                        run.count("failed_app_single_record_status_checks")
+                        if m1.group(1) != str(res.responses[i].status):
+                            v.append(("status-field-differs/failed-application", "the application failed; the one record says %s, the client "
+                                      "received %s" % (m1.group(1), res.responses[i].status)))
             continue
         if case["format"] == "default" or records is None:
             continue
@@ -194,7 +218,18 @@ def run_case(run, e2, harnesses, case, scratch):
             if m.group(1) != str(rp.status):
                 v.append(("status-field-differs", "record says %s, client received %s" % (m.group(1), rp.status)))
             spec_i = case["progs"][i]
-            if spec_i.get("cl") == "over" and not case.get("client_gone") and out["eof"] and rp.framing == "cl":
+            if case.get("head_with_body") and i == len(case["reqs"]) - 1 and not case.get("client_gone") and out["eof"]:
+                # what followed the head of the last response on the wire is what was sent as its body
+                raw = out["received"]
+                hpos = raw.rfind(b"HTTP/1.")
+                hend = raw.find(b"\r\n\r\n", hpos)
+                if hpos >= 0 and hend >= 0 and i == len(res.responses) - 1:
+                    sent_body = len(raw) - hend - 4
+                    run.count("B_compared_head_request_with_body")
+                    if m.group(2) != str(sent_body):
+                        v.append(("bytes-field-differs/head-request", "HEAD request, the application produced a body: the record says B=%s, "
+                                  "%d bytes followed the response head on the wire" % (m.group(2), sent_body)))
+            elif spec_i.get("cl") == "over" and not case.get("client_gone") and out["eof"] and rp.framing == "cl":
                 # the body ends short of its Content-Length; the client read to the end of the connection
                 run.count("B_compared_short_file_body")
                 if m.group(2) != str(len(rp.body)):
@@ -334,7 +369,8 @@ def main(tier, seed):
     run.require("completed_requests", "rejected_requests", "B_compared", "B_nonzero_matches",
                 "hostile/pct-lf-path", "hostile/auth-lf", "hostile/rejected", "hostile/auth-8bit", "B_compared_short_file_body",
                 "client_gone_before_response_cases", "logging_dictionary_cases", "close_raises_cases",
-                "unread_upload_with_refused_trailer_cases")
+                "unread_upload_with_refused_trailer_cases", "failed_app_single_record_status_checks",
+                "B_compared_head_request_with_body")
     q = tier == "quick"
     shards = [{"n": 1200 if q else 15000, "sub": i, "seed": seed, "tier": tier} for i in range(32 if q else 64)]
     classes = ["sync", "gthread", "gevent", "eventlet"]
